@@ -1,4 +1,5 @@
 """C07 - decoding never hangs or crashes: any bytes give a result or the library error."""
+import contextlib
 import datetime
 import decimal
 import io
@@ -35,6 +36,8 @@ def prepare(ctx):
     from cardutil.cli import mci_ipm_to_csv, mideu
     ctx.iso, ctx.mciipm, ctx.CardutilError = iso8583, mciipm, CardutilError
     ctx.tool_csv, ctx.tool_mideu = mci_ipm_to_csv, mideu
+    from cardutil.cli import paramconv
+    ctx.tool_paramconv = paramconv
     msgwork.set_packaged(config['bit_config'])
     ctx.tmpdir = None
 
@@ -105,7 +108,7 @@ def pds_text(rng):
     return ''.join(parts)
 
 
-FAMILIES = ('byte_sweeps', 'length_rewrites', 'hex_bitmap_spellings', 'typed_content_words', 'icc_tails', 'truncations', 'extensions', 'multipoint')
+FAMILIES = ('byte_sweeps', 'length_rewrites', 'hex_bitmap_spellings', 'typed_content_words', 'icc_tails', 'icc_long_form_lengths', 'truncations', 'extensions', 'multipoint')
 
 
 def family_iter(ctx, name, data, L, enc, k):
@@ -119,6 +122,8 @@ def family_iter(ctx, name, data, L, enc, k):
         return mutate.hex_bitmap_spellings(data, len(L.bitmap) == 32)
     if name == 'icc_tails':
         return mutate.icc_tails(data, L, msgwork.cfg_of(base(ctx, k)[0]), enc)
+    if name == 'icc_long_form_lengths':
+        return mutate.icc_long_form_lengths(data, L, msgwork.cfg_of(base(ctx, k)[0]), enc)
     if name == 'typed_content_words':
         return mutate.typed_content_words(data, L, msgwork.cfg_of(base(ctx, k)[0]), enc)
     if name == 'extensions':
@@ -486,7 +491,13 @@ def run_tools(ctx, fdata, enc, blocked, how):
         return ctx.tool_mideu.cli_run(func=ctx.tool_mideu.convert, input=path,
                                       sourceformat='ascii' if enc == 'latin_1' else 'ebcdic', no1014blocking=not blocked,
                                       loglevel=logging.WARNING)
-    for name, fn in (('mci_ipm_to_csv', csv_tool), ('mideu extract', mideu_tool), ('mideu convert', convert_tool)):
+    def paramconv_tool():
+        with contextlib.redirect_stdout(io.StringIO()):
+            return ctx.tool_paramconv.cli_run(input=path, output=os.path.join(ctx.tmpdir, 'out.bin'),
+                                              sourceformat='ascii' if enc == 'latin_1' else 'ebcdic', no1014blocking=not blocked,
+                                              loglevel=logging.WARNING)
+    for name, fn in (('mci_ipm_to_csv', csv_tool), ('mideu extract', mideu_tool), ('mideu convert', convert_tool),
+                     ('paramconv', paramconv_tool)):
         kind, val = ctx.call(fn, budget=sentinel.budget_for(len(fdata)) * 3 + 200000)
         ctx.count('tool runs: ' + name)
         if kind == 'ok':
